@@ -100,8 +100,10 @@ def defer_measurements(
     measurement_qubits: dict[cirq.MeasurementKey, list[tuple[cirq.Qid, ...]]] = defaultdict(list)
 
     def defer(op: cirq.Operation, moment_index: int | None) -> cirq.OP_TREE:
-        if (moment_index, op) in terminal_measurements and not (
-            protocols.measurement_key_objs(op) & measurement_qubits.keys()
+        if (
+            protocols.is_measurement(op)
+            and (moment_index, op) in terminal_measurements
+            and not (protocols.measurement_key_objs(op) & measurement_qubits.keys())
         ):
             return op
         gate = op.gate
